@@ -61,10 +61,21 @@ def step (s : S) (line : String) : S × String :=
         let (v, n) := validateAndAcquire pwEq s.cfg m s.sessions
         (s, showV v n)
       | none => (s, "bad-op")
+    else if op == "argv" || op == "argvp" then
+      match parseMeta ts with
+      | some m =>
+        let (v, n) := validateAndAcquire pwEq s.cfg m s.sessions
+        let line := showV v n
+        if v == .ok then
+          let av := ",".intercalate ((processArgv m).map hexTok)
+          -- a PTY that cannot be allocated in this environment leaves nothing to read back
+          if op == "argvp" then (s, s!"anyof {line} argv={av} | {line} argv=-") else (s, s!"{line} argv={av}")
+        else (s, line)
+      | none => (s, "bad-op")
     else if op == "rel" then
       let n := release s.sessions
       ({ s with sessions := n }, s!"sessions {n}")
-    else if op == "stress" then (s, "stress ok")
+    else if op == "stress" || op == "stressv" then (s, "stress ok")
     else (s, "bad-op")
   | _ => (s, "bad-op")
 
@@ -78,8 +89,19 @@ def spec (s : S) (op : String) (implOut : String) : S × String :=
     | none => (s, "ok")
   | "stress" :: _ =>
     (s, if tokens implOut == ["stress", "ok"] then "ok" else "fail sessions-exceeded")
+  | "stressv" :: _ =>
+    (s, if tokens implOut == ["stress", "ok"] then "ok" else "fail sessions-exceeded")
   | kind :: ts =>
-    if kind == "admit" || kind == "session" || kind == "pty" then
+    if kind == "argv" || kind == "argvp" then
+      match parseMeta ts, tokens implOut with
+      | some m, ["ok", _, av] =>
+        if !authorised pwEq s.cfg m then (s, "fail unauthorised-start")
+        else if av == "argv=-" then (s, "ok")
+        else if av != "argv=" ++ ",".intercalate ((processArgv m).map hexTok) then (s, "fail argv-differs-from-validated")
+        else (s, "ok")
+      | _, "panic" :: _ => (s, "fail crashed")
+      | _, _ => (s, "ok")
+    else if kind == "admit" || kind == "session" || kind == "pty" then
       match parseMeta ts, tokens implOut with
       | some m, ["ok", n] =>
         if !authorised pwEq s.cfg m then (s, "fail unauthorised-start")
